@@ -1,5 +1,5 @@
 """C01 - pairing is the BLS12-381 optimal-ate pairing (partial claim: identity clause + generator constant)."""
-from .. import guards, consts, formulas
+from .. import guards, consts, formulas, fieldlayer
 
 EXPL = ('Partial claim. The numerical value of the pairing, bilinearity and order r quantify over ~2^510 inputs and are '
         'NOT decided (no static argument in reach). Decided: (R-GUARD/G1) the clause "e(P,Q) = 1 when P or Q is the '
@@ -21,7 +21,10 @@ def run(ctx):
     ctx.level = 'other'
     ctx.assumptions = ['everything about the pairing value for non-identity inputs is outside this check']
     for cfg, prog in ctx.programs().items():
+        fieldlayer.rule_field_layer(ctx, cfg, prog)
         guards.g1_miller_loop(ctx, cfg, prog)
         consts.rule_pairing_constants(ctx, cfg, prog)
         e = formulas.rule_exponents_gt(ctx, cfg, prog, which=('final',))
         ctx.floor('R-POLY/exp final exponentiation[%s]' % cfg, e, 2)
+        ln = formulas.rule_miller_lines(ctx, cfg, prog)
+        ctx.floor('R-POLY/line obligations[%s]' % cfg, ln, 6)
